@@ -520,6 +520,132 @@ func pdDeadlineSites(pkgs map[string]*pkgSrc) []pdDeadlineFact {
 	return out
 }
 
+// pdInitializeWrites: the receiver fields written (m.F = …, m.F[k] = …, m.F++) by handleInitialize and by every method of the
+// lifecycle manager it calls directly, as "func: target".
+func pdInitializeWrites(p *pkgSrc) []string {
+	hi, _ := p.funcDecl("lifecycleManager.handleInitialize")
+	if hi == nil || hi.Body == nil {
+		return []string{"?"}
+	}
+	fns := []string{"handleInitialize"}
+	ast.Inspect(hi.Body, func(n ast.Node) bool {
+		if c, ok := n.(*ast.CallExpr); ok {
+			if s, ok := c.Fun.(*ast.SelectorExpr); ok {
+				if id, ok := s.X.(*ast.Ident); ok && id.Name == "m" {
+					fns = append(fns, s.Sel.Name)
+				}
+			}
+		}
+		return true
+	})
+	var out []string
+	onRecv := func(e ast.Expr) bool {
+		for {
+			switch x := e.(type) {
+			case *ast.IndexExpr:
+				e = x.X
+			case *ast.SelectorExpr:
+				if id, ok := x.X.(*ast.Ident); ok {
+					return id.Name == "m"
+				}
+				e = x.X
+			case *ast.StarExpr:
+				e = x.X
+			case *ast.ParenExpr:
+				e = x.X
+			default:
+				return false
+			}
+		}
+	}
+	for _, fn := range fns {
+		fd, _ := p.funcDecl("lifecycleManager." + fn)
+		if fd == nil || fd.Body == nil {
+			continue
+		}
+		ast.Inspect(fd.Body, func(n ast.Node) bool {
+			switch x := n.(type) {
+			case *ast.AssignStmt:
+				for _, l := range x.Lhs {
+					if onRecv(l) {
+						out = append(out, fn+": "+pdSquash(p.text(l)))
+					}
+				}
+			case *ast.IncDecStmt:
+				if onRecv(x.X) {
+					out = append(out, fn+": "+pdSquash(p.text(x.X)))
+				}
+			}
+			return true
+		})
+	}
+	return out
+}
+
+// pdInitializeVersionFromParam: the ProtocolVersion of the InitializeResult built by buildInitializeResponse is one of that
+// function's parameters (not something read from the manager).
+func pdInitializeVersionFromParam(p *pkgSrc) bool {
+	fd, _ := p.funcDecl("lifecycleManager.buildInitializeResponse")
+	if fd == nil || fd.Body == nil {
+		return false
+	}
+	params := map[string]bool{}
+	for _, f := range fd.Type.Params.List {
+		for _, n := range f.Names {
+			params[n.Name] = true
+		}
+	}
+	assigned := map[string]bool{} // a parameter that is assigned to in the body is no longer the caller's value
+	found, ok := false, true
+	ast.Inspect(fd.Body, func(n ast.Node) bool {
+		switch x := n.(type) {
+		case *ast.AssignStmt:
+			for _, l := range x.Lhs {
+				if id, isID := l.(*ast.Ident); isID {
+					assigned[id.Name] = true
+				}
+			}
+		case *ast.KeyValueExpr:
+			if k, isID := x.Key.(*ast.Ident); isID && k.Name == "ProtocolVersion" {
+				found = true
+				id, isID := x.Value.(*ast.Ident)
+				if !isID || !params[id.Name] {
+					ok = false
+				}
+			}
+		}
+		return true
+	})
+	for name := range assigned {
+		if params[name] {
+			ok = false
+		}
+	}
+	return found && ok
+}
+
+// pdActiveSessionsConds: every condition (`if`, `switch` tag / case) inside SessionManager.GetActiveSessions — the list of
+// sessions a broadcast goes to is every stored session when there is none.
+func pdActiveSessionsConds(sp *pkgSrc) []string {
+	fd, _ := sp.funcDecl("SessionManager.GetActiveSessions")
+	if fd == nil || fd.Body == nil {
+		return []string{"?"}
+	}
+	var out []string
+	ast.Inspect(fd.Body, func(n ast.Node) bool {
+		switch x := n.(type) {
+		case *ast.IfStmt:
+			out = append(out, "if "+pdSquash(sp.text(x.Cond)))
+		case *ast.SwitchStmt:
+			out = append(out, "switch")
+		case *ast.BranchStmt:
+			out = append(out, x.Tok.String())
+		}
+		return true
+	})
+	return out
+}
+
 func pdTextList(ss []string) string {
 	var parts []string
 	for _, s := range ss {
@@ -579,6 +705,10 @@ func genPending(root *pkgSrc) {
 		fmt.Fprintf(&b, "  ⟨%s, %s, %s, %s⟩%s -- %s %s %s(%s)\n", leanText(d.file), leanText(d.fn), leanText(d.call), leanText(d.arg), sep, d.file, d.fn, d.call, d.arg)
 	}
 	b.WriteString("]\n")
+	fmt.Fprintf(&b, "/-- the fields of the lifecycle manager written while an initialize request is handled (handleInitialize and the\n    manager methods it calls), as \"func: target\". -/\ndef pdInitializeWrites : List (List Nat) := %s\n", pdTextList(pdInitializeWrites(root)))
+	fmt.Fprintf(&b, "/-- the protocolVersion of the initialize result is a parameter of buildInitializeResponse. -/\ndef pdInitializeVersionFromParam : Bool := %s\n", leanBool(pdInitializeVersionFromParam(root)))
+	fmt.Fprintf(&b, "/-- conditions and branch statements inside SessionManager.GetActiveSessions (internal/session). -/\ndef pdActiveSessionsConds : List (List Nat) := %s\n",
+		pdTextList(pdActiveSessionsConds(loadDir(filepath.Join(*repo, "internal", "session")))))
 	b.WriteString("end Mcp.Gen\n")
 	writeIfChanged("PendingFacts.lean", b.String())
 }
